@@ -6,7 +6,7 @@ dependency tree of any size: cycles, self-loops and dangling edges included.
 namespace Suds.Xsd
 open List
 
-private theorem final_state (g : Graph) :
+theorem final_state (g : Graph) :
     let s := visitAll g (g.length + 1) ⟨[], []⟩ g.keys
     Step g ⟨[], []⟩ s ∧ (∀ k, k ∈ g.keys → k ∈ s.processed) := by
   have hi : InvA g ⟨[], []⟩ := ⟨fun _ h => by simp at h, fun _ h => by simp at h, List.nodup_nil, List.nodup_nil⟩
